@@ -202,7 +202,7 @@ pub fn prop(case: &Case) -> CaseResult {
     let mut ids: Vec<Option<i64>> = vec![None; clients.len()];
     let mut model = SwarmModel::default();
     let max_scrape = case.tracker.max_scrape as usize;
-    let timeout = Duration::from_secs(5);
+    let timeout = crate::e2e::reply_wait();
 
     // every client obtains an id first (part of the history)
     let mut prelude: Vec<Dg> = (0..clients.len() as u8)
@@ -383,7 +383,7 @@ pub fn prop(case: &Case) -> CaseResult {
             if left.is_zero() {
                 return Err(Violation::new(
                     "inconclusive-fence-timeout",
-                    format!("step {step}: no reply to the fence connect request within 5 s on {:?}", case.tracker),
+                    format!("step {step}: no reply to the fence connect request within the reply wait (20 s) on {:?}", case.tracker),
                 ));
             }
             match c.recv(left) {
@@ -725,7 +725,7 @@ pub fn prop_raw(case: &RawCase) -> CaseResult {
     let _guard = Fd(fd);
     let case_id = CASE_COUNTER.fetch_add(1, Ordering::Relaxed);
     let c = UdpClient::new("127.0.0.1".parse().unwrap(), port).map_err(|e| Violation::new("inconclusive-client", e))?;
-    let timeout = Duration::from_secs(5);
+    let timeout = crate::e2e::reply_wait();
     // obtain an id valid for 127.0.0.1
     let tid = next_tid();
     c.send(&bep15_encode_request(&UReq::Connect { tid })).map_err(|e| Violation::new("inconclusive-send", e))?;
